@@ -88,7 +88,7 @@ def check(case):
             s8 = vs.calculator(setup, NGFmax=8)[3]
             b8 = vs.calculator(big_setup, NGFmax=8)[3]
             r8 = resid((evaluate(s8, usertags, case["kT"]), evaluate(b8, usertags, case["kT"])))
-            ok = r8 <= max(TOL, 0.5 * r)
+            ok = r8 <= max(TOL, vs.SHRINK * r)
             if ok:
                 classes.append("integration_limited")
         if not ok:
